@@ -39,10 +39,16 @@ function typeText(ctx, v) {
 const ERR = ['TypeError', 'RangeError', 'ReferenceError', 'SyntaxError', 'EvalError', 'URIError', 'AggregateError', 'Error'];
 function errorClass(ctx, e) {
   if ((typeof e === 'object' && e !== null) || typeof e === 'function') {
-    if (Object.prototype.toString.call(e) === '[object Error]' || e instanceof ctx.Error) {
-      for (const n of ERR) { if (ctx[n] && e instanceof ctx[n]) return 'T:' + n; }
-      return 'T:Error';
+    // classify inside the context (its own Error constructors); the proto-chain walk mirrors JSRef/Driver.v error_class_of
+    let cls;
+    try {
+      cls = vm.runInContext('(function(e, names){ if (Object.prototype.toString.call(e) !== "[object Error]") return null;' +
+        ' for (const n of names) { const C = globalThis[n]; if (typeof C === "function" && e instanceof C) return n; } return "Error"; })', ctx)(e, ERR);
+    } catch (x) { cls = null; }
+    if (cls === null && e instanceof Error) {
+      for (const n of ERR) { if (e instanceof global[n]) return 'T:' + n; }
     }
+    if (cls) return 'T:' + cls;
     return 'T:throw:object';
   }
   return 'T:throw:' + typeText(ctx, e);
